@@ -250,14 +250,15 @@ func chainStreams(c *mon.Ctx, h *hostile.Harness) {
 		// accepted inputs are delivered (separately, so that the validator's own call stays a
 		// single measured call): re-run the mutants the validator accepts
 		delivered := 0
-		sm, _ := hostile.StructureMutants(base)
-		cand := append([]hostile.Mutant{{Class: "valid", Data: base}}, sm...)
-		cand = append(cand, hostile.RandomMutants(r, base, 60)...)
-		if len(cand) > 1500 {
-			r.Shuffle(len(cand)-1, func(i, j int) { cand[i+1], cand[j+1] = cand[j+1], cand[i+1] })
-			cand = cand[:1500]
+		sm, _ := hostile.SampleStructureMutants(r, base, 1400)
+		cand := []hostile.Lazy{{Class: "valid", Build: func() []byte { return base }}}
+		cand = append(cand, sm...)
+		for _, m := range hostile.RandomMutants(r, base, 60) {
+			m := m
+			cand = append(cand, hostile.Lazy{Class: m.Class, Build: func() []byte { return m.Data }})
 		}
-		for _, m := range cand {
+		for _, lm := range cand {
+			m := hostile.Mutant{Class: lm.Class, Data: lm.Build()}
 			if getWorld(k) == nil {
 				return
 			}
@@ -311,8 +312,11 @@ func chainStreams(c *mon.Ctx, h *hostile.Harness) {
 			}},
 		}
 		drive(k, h, r, base, targets, defaultOpts)
-		sm, _ := hostile.StructureMutants(base)
-		cand := append([]hostile.Mutant{{Class: "valid", Data: base}}, sm...)
+		sm, _ := hostile.SampleStructureMutants(r, base, 2500)
+		cand := []hostile.Mutant{{Class: "valid", Data: base}}
+		for _, l := range sm {
+			cand = append(cand, hostile.Mutant{Class: l.Class, Data: l.Build()})
+		}
 		cand = append(cand, hostile.RandomMutants(r, base, 100)...)
 		for _, m := range cand {
 			verdict := p2p.ValidationReject
